@@ -47,6 +47,11 @@ if TYPE_CHECKING:
 logger = logging.getLogger(__name__)
 
 
+def full_workflow_has_synthetic(workflow: Workflow, stage: StageExecution) -> bool:
+    """Whether `stage` already has synthetic (before/after) child stages."""
+    return any(s.parent_stage_id == stage.id for s in workflow.stages)
+
+
 @dataclass
 class RecoveryResult:
     """Result of workflow recovery operation."""
@@ -346,14 +351,30 @@ class WorkflowRecovery:
                     # task is already queued, so a recovery sweep overlapping
                     # normal progress cannot enqueue a duplicate StartTask.
                     if not self.queue.has_pending_message_for_task(first_task.id):
-                        recovery_messages.append(
-                            StartTask(
-                                execution_type=full_workflow.type.value,
-                                execution_id=full_workflow.id,
-                                stage_id=stage.id,
-                                task_id=first_task.id,
-                            )
+                        never_started = len(not_started_tasks) == len(stage.tasks) and all(
+                            t.start_time is None for t in stage.tasks
                         )
+                        if never_started and not full_workflow_has_synthetic(full_workflow, stage):
+                            # No task ever started and no StartTask is queued: the
+                            # stage was claimed but its plan never committed (the
+                            # context is not hydrated with upstream outputs yet).
+                            # Re-plan it instead of starting its first task.
+                            recovery_messages.append(
+                                StartStage(
+                                    execution_type=full_workflow.type.value,
+                                    execution_id=full_workflow.id,
+                                    stage_id=stage.id,
+                                )
+                            )
+                        else:
+                            recovery_messages.append(
+                                StartTask(
+                                    execution_type=full_workflow.type.value,
+                                    execution_id=full_workflow.id,
+                                    stage_id=stage.id,
+                                    task_id=first_task.id,
+                                )
+                            )
                 else:
                     recovery_messages.append(
                         StartStage(
